@@ -9,11 +9,11 @@ struct Prefix { std::string name; Cfg cfg; bytes script; };
 
 static void rep(bytes& b, const char* hexs, int n) { bytes x = ref::unhex(hexs); for (int i = 0; i < n; i++) b.insert(b.end(), x.begin(), x.end()); }
 
-static std::vector<Prefix> c10_prefixes() {
+static std::vector<Prefix> c10_prefixes(bool thorough = false) {
     std::vector<Prefix> P;
     ref::SigVer svs[3] = {ref::SigVer::BASE, ref::SigVer::WITNESS_V0, ref::SigVer::TAPSCRIPT};
-    for (auto sv : svs) {
-        Cfg c{sv, 0, {}};
+    for (uint32_t fl : (thorough ? std::vector<uint32_t>{0u, ref::F_STANDARD & ~ref::F_CLEANSTACK} : std::vector<uint32_t>{0u})) for (auto sv : svs) {
+        Cfg c{sv, fl, {}};
         // op count by NOPs
         for (int k : {199, 200, 201, 202}) { bytes s; rep(s, "61", k); P.push_back({"nop*" + std::to_string(k), c, s}); }
         // inside an unexecuted branch: 0 IF NOP*k ENDIF  (IF and ENDIF count)
@@ -35,12 +35,12 @@ static std::vector<Prefix> c10_prefixes() {
         // 3DUP near the limit
         for (int n : {996, 997, 998}) { bytes s = ref::unhex("515253"); rep(s, "6f", 0); rep(s, "76", n - 3); P.push_back({std::to_string(n) + " items before 3DUP/2DUP", c, s}); }
         // initial stack of 999 / 1000 items
-        for (int n : {999, 1000}) { Cfg ci{sv, 0, std::vector<bytes>(n, bytes{0x01})}; P.push_back({"initial stack of " + std::to_string(n), ci, {}}); }
+        for (int n : {999, 1000}) { Cfg ci{sv, fl, std::vector<bytes>(n, bytes{0x01})}; P.push_back({"initial stack of " + std::to_string(n), ci, {}}); }
         // numeric operand widths
         for (const char* v : {"04ffffff7f", "050000008000", "05ffffffff7f", "06000000008000", "06ffffffffff7f"}) {
             bytes s = ref::unhex(v); P.push_back({std::string("operand ") + v, c, s});
             bytes s2 = ref::unhex("51"); bytes x = ref::unhex(v); s2.insert(s2.end(), x.begin(), x.end()); P.push_back({std::string("operands 1, ") + v, c, s2});
-            Cfg cl{sv, ref::F_CLTV | ref::F_CSV, {}}; P.push_back({std::string("operand ") + v + " with CLTV/CSV enabled", cl, s});
+            Cfg cl{sv, fl | ref::F_CLTV | ref::F_CSV, {}}; P.push_back({std::string("operand ") + v + " with CLTV/CSV enabled", cl, s});
         }
     }
     return P;
@@ -135,8 +135,9 @@ static const char* ext_name(uint8_t c) {
 }
 static int ext_arity(uint8_t c) { return c == 0x7f ? 3 : (c == 0x83 || c == 0x8d || c == 0x8e) ? 1 : 2; }
 
-static std::vector<bytes> W_values() {
+static std::vector<bytes> W_values(bool thorough = false) {
     std::vector<bytes> w;
+    if (thorough) { for (int b = 0; b < 256; b++) w.push_back(bytes{uint8_t(b)}); for (const char* h : {"", "0080", "8000", "8080", "ff00", "ff7f", "ffff", "ff80", "0100", "ffffff7f", "ffffffff", "00000080", "0000008000", "aabb", "aabbcc", "0102030405", "ffffffff7f"}) w.push_back(ref::unhex(h)); return w; }
     for (const char* h : {"", "00", "80", "01", "81", "02", "03", "7f", "ff", "0080", "8000", "8080", "ff00", "ff7f", "ffff", "ffffff7f", "ffffffff", "0000008000", "aabb", "aabbcc", "0102030405", "10", "1f", "20", "21", "3f", "40", "05", "06"}) w.push_back(ref::unhex(h));
     return w;
 }
@@ -271,7 +272,7 @@ int main(int argc, char** argv) {
     }
 
     if (mode == "c10") {
-        auto P = c10_prefixes(); auto W = c10_wholes();
+        auto P = c10_prefixes(tier != "quick"); auto W = c10_wholes();
         Stats S; long long whole_sessions = 0; std::vector<std::string> samples;
         // item = (prefix, symbol) ; plus the prefix itself ; plus whole sessions
         struct It { int p; int s; };
@@ -311,7 +312,7 @@ int main(int argc, char** argv) {
         res.put("samples", J::strs(samples));
     } else if (mode == "c17") {
         std::vector<ExtCase> cases;
-        auto Wv = W_values();
+        auto Wv = W_values(tier != "quick");
         uint8_t ops[15] = {0x7e, 0x7f, 0x80, 0x81, 0x83, 0x84, 0x85, 0x86, 0x8d, 0x8e, 0x95, 0x96, 0x97, 0x98, 0x99};
         std::vector<bytes> offs; for (const char* h : {"", "01", "02", "03", "04", "05", "06", "81", "80", "0100", "ff00", "ffffff7f"}) offs.push_back(ref::unhex(h));
         for (uint8_t op : ops) {
